@@ -13,6 +13,9 @@ import (
 	"verif/resp"
 )
 
+// c01MaxNesting is the nesting depth the parser documents as its limit.
+const c01MaxNesting = 128
+
 // C01: RESP encode/decode round trip, binary-safe bulk, constructors.
 
 type c01Case struct {
@@ -347,15 +350,15 @@ func c01Run(c *fw.Ctx) {
 		}
 	}
 	// (v-depth) nesting ladder: a chain of arrays d levels deep around a leaf, and the same with a
-	// sibling at every level, for every depth the parser accepts (1..proto.MaxArrayDepth)
-	for d := 1; d <= proto.MaxArrayDepth; d++ {
+	// sibling at every level, for every depth the parser accepts (1..128; a literal, so that the harness does not depend on an identifier of the repository)
+	for d := 1; d <= c01MaxNesting; d++ {
 		for _, leaf := range []resp.Value{resp.B("x"), resp.A(), resp.I(1)} {
 			v, w := leaf, leaf
 			for i := 0; i < d; i++ {
 				v = resp.A(v)
 				w = resp.A(resp.S("s"), w)
 			}
-			if leaf.Kind == resp.Array && d == proto.MaxArrayDepth {
+			if leaf.Kind == resp.Array && d == c01MaxNesting {
 				continue // the empty array at the bottom is one more level
 			}
 			c01RunValue(c, v, "depth")
